@@ -756,7 +756,20 @@ pub fn implies(model: &mut Model, b1: VarId, b2: VarId) {
 /// let result = element(&mut model, index, &array);
 /// ```
 pub fn element(model: &mut Model, array: &[VarId], index: VarId) -> VarId {
-    let result = model.int(-1000, 1000); // TODO: compute proper domain
+    // the value is one of the array entries: its bounds are the hull of their bounds
+    use crate::variables::views::ViewRaw;
+    let mut bounds: Option<(Val, Val)> = None;
+    for &v in array {
+        let (lo, hi) = (v.min_raw(&model.vars), v.max_raw(&model.vars));
+        bounds = Some(match bounds {
+            None => (lo, hi),
+            Some((l, h)) => (if lo < l { lo } else { l }, if hi > h { hi } else { h }),
+        });
+    }
+    let result = match bounds {
+        Some((lo, hi)) => model.new_var_unchecked(lo, hi),
+        None => model.int(-1000, 1000), // empty array: the constraint is unsatisfiable whatever the domain
+    };
     model.element(array, index, result);
     result
 }
